@@ -52,6 +52,10 @@ def main():
     while i < len(rest):
         if rest[i] == "--replay":
             return engine.replay(pid, rest[i + 1])
+        if rest[i] == "--child":
+            from dsim.props import c19
+            c19.child_main()
+            return 0
         if rest[i] == "--selftest-child":
             engine.selftest_child(pid, tier, base, [int(x) for x in rest[i + 1].split(",") if x])
             return 0
